@@ -19,7 +19,7 @@ use crate::{
         socks::{
             frames::setup_udp_session, PasswordAuth, SocksRequest, SocksResponse, SOCKS_CMD_BIND,
             SOCKS_CMD_CONNECT, SOCKS_CMD_UDP_ASSOCIATE, SOCKS_REPLY_GENERAL_FAILURE,
-            SOCKS_REPLY_OK,
+            SOCKS_REPLY_OK, SOCKS_VER_4,
         },
         tls::TlsServerConfig,
     },
@@ -179,7 +179,8 @@ impl SocksListener {
                 ctx.on_error(err_msg("not supported")).await;
                 debug!("not supported cmd: {:?}", request.cmd);
             }
-            SOCKS_CMD_UDP_ASSOCIATE => {
+            // SOCKS4 knows CONNECT and BIND only
+            SOCKS_CMD_UDP_ASSOCIATE if request.version != SOCKS_VER_4 => {
                 if !self.allow_udp {
                     ctx.on_error(err_msg("not supported")).await;
                     debug!("udp not allowed");
